@@ -6,6 +6,7 @@ import (
 	"fmt"
 	"log/slog"
 	"runtime/debug"
+	"sync"
 	"time"
 
 	"github.com/DataDog/gostackparse"
@@ -35,6 +36,25 @@ type process struct {
 	mbuffer  []Envelope
 	// terminated is set by cleanup: the process is stopped for good.
 	terminated bool
+
+	// Everybody who asked for this process to be stopped is told when it has stopped,
+	// whichever request (or crash) actually stopped it.
+	stopMu      sync.Mutex
+	stopDone    bool
+	stopWaiters []context.CancelFunc
+}
+
+// onStopped registers cancel to be called once the process has stopped; if it has
+// stopped already cancel is called right away.
+func (p *process) onStopped(cancel context.CancelFunc) {
+	p.stopMu.Lock()
+	if p.stopDone {
+		p.stopMu.Unlock()
+		cancel()
+		return
+	}
+	p.stopWaiters = append(p.stopWaiters, cancel)
+	p.stopMu.Unlock()
 }
 
 func newProcess(e *Engine, opts Opts) *process {
@@ -203,6 +223,16 @@ func (p *process) cleanup(cancel context.CancelFunc) {
 		cancel = func() {}
 	}
 	defer cancel()
+	defer func() {
+		p.stopMu.Lock()
+		p.stopDone = true
+		waiters := p.stopWaiters
+		p.stopWaiters = nil
+		p.stopMu.Unlock()
+		for _, w := range waiters {
+			w()
+		}
+	}()
 
 	if p.context.parentCtx != nil {
 		p.context.parentCtx.children.Delete(p.pid.ID)
